@@ -1,6 +1,6 @@
 """Unit tables: which contracts/harnesses decide which property.  Declarative; no logic."""
 
-B = "BOUNDED STAND-IN, native run: 19 shipped templates (all but the two ACO ones; the GA also with an odd population and a whole-population tournament) x 3 seeds x 15 iterations on small recording problems; "
+B = "BOUNDED STAND-IN, native run: 19 shipped templates (all but the two ACO ones; the GA also with an odd population and a whole-population tournament) x (3 seeds x 15 iterations + 30 seeds x {1, 2, 3, 6} iterations) on small recording problems; "
 PROPS = {
     "C05": dict(
         level="other",
@@ -13,7 +13,7 @@ PROPS = {
         kani=[dict(files=["contracts/C05/c05.rs"])],
         native=[dict(files=["contracts/C05/c05_native.rs"],
                      harnesses={"c05_native_components_keep_objectives_fresh": dict(anchor="solution-editing components on evaluated individuals",
-                                bound="BOUNDED STAND-IN, native run: 4 boundary-repair and 4 real / 1 bit / 2 permutation mutation components on evaluated populations (coordinates inside, on, a hair outside and clearly outside the domain) x 8 seeds")}),
+                                bound="BOUNDED STAND-IN, native run: 4 boundary-repair and 4 real / 1 bit / 2 permutation mutation components on evaluated populations (coordinates inside, on, a hair outside and clearly outside the domain) x 8 seeds; Uniform / 1-point / Arithmetic / Cycle crossover on 2, 5, 6, 9 evaluated parents x pc in {0, 0.3, 0.5, 0.8, 1} x one or both children x 12 seeds")}),
                 dict(files=["contracts/C07/whole_run_native.rs"],
                      harnesses={"c05_native_whole_runs": dict(anchor="whole runs of the shipped templates (final state)",
                                 bound=B + "every evaluated individual on the final population stack and the best-so-far carry f(solution)")})],
@@ -95,7 +95,9 @@ PROPS["C07"] = dict(
     kani=[dict(files=["contracts/C07/c07.rs"], inject=[dict(file="contracts/C07/c07_archive.rs", into="src/components/archive.rs")])],
     native=[dict(files=["contracts/C07/whole_run_native.rs"],
                  harnesses={"c07_native_whole_runs": dict(anchor="whole runs of the shipped templates (reported best)",
-                            bound=B + "best reported at the end == minimum value the objective function returned; plus 24 CRO runs (12 seeds x 2 energy settings, 50 iterations) in which reactions are rejected for lack of energy")}),
+                            bound=B + "best reported at the end == minimum value the objective function returned; plus 24 CRO runs (12 seeds x 2 energy settings, 50 iterations) in which reactions are rejected for lack of energy"),
+                            "c07_native_template_structure": dict(anchor="shipped templates: component trees (every evaluation step is directly followed by a best-individual update)",
+                            bound="BOUNDED STAND-IN, native structural check: the component tree each of the 19 shipped template constructors builds (one parameter set each), rendered through the crate's RON serialisation")}),
             dict(files=[], inject=[dict(file="contracts/C07/c07_archive_native.rs", into="src/components/archive.rs")],
                  harnesses={"c07_native_archive_histories": dict(anchor="ElitistArchive::update (histories)",
                             bound="BOUNDED STAND-IN, native exhaustive enumeration: all 3-update histories with populations of 0..2 individuals, objective values in {1,2,3}, capacities 0..4 (10985 histories)")})],
@@ -114,7 +116,7 @@ PROPS["C08"] = dict(
     kani=[],
     native=[dict(files=["contracts/C07/whole_run_native.rs", "contracts/C08/c08_native.rs"],
                  harnesses={"c08_native_determinism": dict(anchor="whole runs of the shipped templates (determinism) + Random",
-                            bound="BOUNDED STAND-IN, native run: 19 shipped templates x seeds {1,2} x {sequential twice, cloned configuration, parallel evaluator 3 times}, 8 iterations; generator and child-generator streams for 4 seeds; Sequential vs Parallel evaluate on populations of 0..5 with every mix of pre-evaluated individuals")})],
+                            bound="BOUNDED STAND-IN, native run: 19 shipped templates x seeds {1,2} x {sequential twice, cloned configuration, parallel evaluator 3 times}, 8 iterations; the 13 real-valued templates also re-used across two problem instances (3-dim narrow / 5-dim wide domain, both orders): used vs fresh configuration object, clone of a used configuration; generator and child-generator streams for 4 seeds; Sequential vs Parallel evaluate on populations of 0..5 with every mix of pre-evaluated individuals")})],
     min_obligations={"quick": 3, "thorough": 3},
     uncovered=["thread-schedule independence beyond the schedules rayon happens to produce in 3 repetitions", "the two ACO templates",
                "RandomIter::next / Random::with_rng under contract (struct holding &mut / fn-pointer closure: Verus rejects)"],
@@ -134,7 +136,9 @@ PROPS["C16"] = dict(
     kani=[],
     native=[dict(files=["contracts/C07/whole_run_native.rs"],
                  harnesses={"c16_native_whole_runs": dict(anchor="whole runs of the shipped templates (completion, iterations, stack, size)",
-                            bound=B + "runs without error, performs exactly the requested iterations, one population at the end, prescribed population size")})],
+                            bound=B + "runs without error, performs exactly the requested iterations, one population at the end, prescribed population size"),
+                            "c16_native_parameter_corners": dict(anchor="shipped real-valued templates at the edges of their parameter ranges",
+                            bound="BOUNDED STAND-IN, native run: 36 parameter sets accepted by the constructors (one individual, selection size = population size, probabilities 0 and 1, lambda < mu, population = 2y for DE, ...) x 4 seeds x 6 iterations on two problem instances")})],
     min_obligations={"quick": 10, "thorough": 10},
     uncovered=["per-pass stack height (only the end of the run is observed)", "the two ACO templates", "other problem instances and parameter sets than the ones run"],
     assumptions=["abstract-children mirror of Component/Condition; value-state mirror (C01/C02 contracts)"],
@@ -150,7 +154,7 @@ PROPS["C18"] = dict(
     kani=[dict(files=["contracts/C18/c18.rs"])],
     native=[dict(files=["contracts/C07/whole_run_native.rs", "contracts/C18/c18_native.rs"],
                  harnesses={"c18_native_swarm": dict(anchor="PSO components (velocity update, inertia weight, personal/global best)",
-                            bound="BOUNDED STAND-IN, native run: real PSO template with probes, 12 iterations x 4 seeds x 2 objective scales (1 and 1e-18) x 5 parameter sets (decreasing, increasing and constant weight schedules; two with c1 = c2 = 0 to observe the stored inertia weight; one with a single particle)")})],
+                            bound="BOUNDED STAND-IN, native run: real PSO template with probes, 12 iterations x 4 seeds x 2 objective scales (1 and 1e-18) x 8 parameter sets (decreasing, increasing and constant weight schedules, weights from 0 to 1.5; five with c1 = c2 = 0 to observe the stored inertia weight, three of them with weights above 1; one with a single particle)")})],
     min_obligations={"quick": 6, "thorough": 6},
     uncovered=["the velocity formula itself with non-zero c1, c2 (random draws)", "Linear::map for symbolic weights (CBMC does not finish: two float multiply-add chains); only the pairs (0.9, 0.4), (0.4, 0.9)"],
     assumptions=["lens / mapping mirrors (arbitrary functions of problem and state)", "CBMC's IEEE-754 model"],
@@ -263,7 +267,7 @@ PROPS["C14"] = dict(
                  harnesses={"c14_native_initialisation": dict(anchor="random_spread",
                             bound="BOUNDED STAND-IN, native run: 40 seeds x sizes 0..4 x 4 domains / dimensions 0..5 for random_spread, random_permutation, random_bitstring"),
                             "c14_native_components": dict(anchor="initialisation and boundary-repair components",
-                            bound="BOUNDED STAND-IN, native run: RandomSpread/RandomPermutation/RandomBitstring/Empty components x sizes {0,1,2,7} x 16 seeds; Saturation/Toroidal/Mirror/CompleteOneTailedNormalCorrection components on a 27-point grid per coordinate (up to 1e6 widths outside, every half width up to 5) x 3 domains x 8 seeds (160 for the resampling operator) (bounds, unchanged-inside, idempotence)")})],
+                            bound="BOUNDED STAND-IN, native run: RandomSpread/RandomPermutation/RandomBitstring/Empty components x sizes {0,1,2,7} x 16 seeds; Saturation/Toroidal/Mirror/CompleteOneTailedNormalCorrection components on a 27-point grid per coordinate (up to 1e6 widths outside, every half width up to 5) x 3 domains x 8 seeds (160 for the resampling operator), on unevaluated and on already evaluated individuals (bounds, unchanged-inside, idempotence)")})],
     min_obligations={"quick": 39, "thorough": 39},
     uncovered=["initialisation operators (rejection-sampling loops over a symbolic RNG are unbounded)", "resampling distribution",
                "boundary_constraint driver over populations"],
@@ -385,7 +389,7 @@ PROPS["C01"] = dict(
 PROPS["C17"] = dict(
     level="other",
     explanation=("Verus: ExponentialAnnealingAcceptance::execute extracted verbatim; decision structure of the Metropolis rule against the "
-                 "C04 Populations contracts (strictly better candidate always survives; exactly one population replaces the two; "
+                 "C04 Populations contracts (a candidate at least as good always survives, for every objective value incl. +inf; exactly one population replaces the two; "
                  "survivor is one of the two). Kani: GeometricCooling::map = value * alpha over all f64 (complete)."),
     verus=[dict(name="acceptance", template="contracts/C17/acceptance.vrs",
                 expect=["<ExponentialAnnealingAcceptance as Component<P>>::execute"]),
@@ -393,9 +397,11 @@ PROPS["C17"] = dict(
     kani=[dict(files=["contracts/C17/c17.rs"])],
     native=[dict(files=["contracts/C17/c17_native.rs"],
                  harnesses={"c17_native_metropolis_grid": dict(anchor="ExponentialAnnealingAcceptance::execute",
-                            bound="BOUNDED STAND-IN, native grid: 8x8 objective pairs (incl. equal, +inf) x 5 temperatures x 25 seeds x {2,3} populations")})],
+                            bound="BOUNDED STAND-IN, native grid: 10x10 objective pairs (incl. equal, 1 ulp apart, +inf) x 8 temperatures (1e-300 .. 1e300) x 25 seeds x {2,3} populations; exact rules where exp() is exactly 0 or 1"),
+                            "c17_native_acceptance_frequency": dict(anchor="ExponentialAnnealingAcceptance::execute",
+                            bound="BOUNDED STAND-IN, native statistics: 11 (margin, temperature) cells x 4000 fixed seeds, acceptance frequency within +-0.05 of exp(-(f_cand - f_cur)/T)")})],
     min_obligations={"quick": 31, "thorough": 31},
-    uncovered=["the acceptance probability itself (statistical) and 'equally good is always accepted' (needs exp(0) = 1 > u: floats are uninterpreted in Verus)",
+    uncovered=["the acceptance probability itself is not PROVED (floats are uninterpreted in Verus): it is compared statistically, on a grid, by the native stand-in",
                "mapping() driver applying the cooling through lenses"],
     assumptions=["float operations are defined (vstd sub_req/div_req lifted into the precondition)"],
 )
@@ -413,7 +419,7 @@ PROPS["C06"] = dict(
                             bound=B + "reported evaluations == objective-function invocations")}),
             dict(files=["contracts/C06/c06_native.rs"],
                  harnesses={"c06_native_population_evaluator": dict(anchor="PopulationEvaluator::execute",
-                            bound="BOUNDED STAND-IN, native run: population sizes 0..4 x every evaluated/unevaluated mix x {sequential, parallel} x 1..2 steps; missing-evaluator run")})],
+                            bound="BOUNDED STAND-IN, native run: population sizes 0..4 x every evaluated/unevaluated mix x {sequential, parallel} x 1..2 steps; sizes 5..70, 97, 128, 200 x 3 mixes x both evaluators, the parallel one also under worker pools of 1, 2, 3, 4, 5, 8 threads; missing-evaluator run; registered/requested identifier combinations")})],
     min_obligations={"quick": 9, "thorough": 9},
     uncovered=["PopulationEvaluator::execute incl. the evaluation COUNTER (closure capturing &mut population: Verus rejects; State + eyre: Kani cannot)",
                "Parallel evaluator (threads)",
